@@ -440,6 +440,11 @@ func resolveAggregates(
 						orderBy,
 						fields,
 					)
+					if hostSelect, isSelect := host.(*Select); hasHost && isSelect {
+						// The aggregate reads the related documents of this join, even if it was
+						// added for a filter only.
+						hostSelect.SkipResolve = false
+					}
 				}
 			}
 
